@@ -484,8 +484,9 @@ Fixpoint sysfunc_lookup (name : list ch) (rows : list (list Z * (list Z * (Z * (
 (* read_args_tokens for a macro call: every argument is a {string} or an integer literal *)
 Definition read_macro_arg (tb : Z) (s : list ch) (ln : Z) : res (option marg * list ch * Z) :=
   let '(s1, ln1) := skip_space s ln in
-  if eq_char s1 123 then
-    let '(body, s2, ln2) := get_token_nest s1 ln1 123 125 in
+  if eq_char s1 123 || eq_char s1 34 then
+    (* read_value: '{' => get_token_nest('{', '}') ; '"' => next(); get_token_ch('"') *)
+    let '(body, s2, ln2) := if eq_char s1 123 then get_token_nest s1 ln1 123 125 else get_token_ch 34 (tl s1) ln1 in
     match s2 with
     | [] => Ok (Some (MStr body), s2, ln2)
     | _ => let '(s3, ln3) := skip_space s2 ln2 in
@@ -745,6 +746,15 @@ Definition read_ext_command_raw (ls : lexstate) (ttype : list ch) (argt tag1 tag
       do r <- read_decres tag1 (lx_timebase ls) s ln; let '(t, s1, ln1) := r in Ok (Some t, s1, ln1, ls)
     else if list_eqb ttype (zs "Play") then read_play ls s ln
     else if list_eqb ttype (zs "DefStr") then read_def_str ls s ln
+    else Unsupported U_UPPER
+  else if argt =? 83 then
+    (* 'S': skip blanks, an optional '=', read_args_tokens; the arguments may be strings *)
+    if list_eqb ttype (zs "MetaText") then
+      let '(s2, ln2) := skip_space s ln in
+      let s3 := if eq_char s2 61 then tl s2 else s2 in
+      do ra <- read_macro_args ls s3 ln2;
+      let '(vs, s4, ln4, ls') := ra in
+      Ok (Some (TMetaText tag1 (hd None vs)), s4, ln4, ls')
     else Unsupported U_UPPER
   else Unsupported U_UPPER.
 Definition read_ext_command (ls : lexstate) (ttype : list ch) (argt tag1 tag2 : Z) (s : list ch) (ln : Z) : res rd_out :=
